@@ -68,5 +68,17 @@ func init() {
 		rulePanicAssert(p, r, p.FuncList)
 		rulePanicIdx(p, r, "mxj", ".", nil)
 		rulePanicNil(p, r, p.PkgFuncs("mxj"))
+		rulePanicExplicit(p, r, p.PkgFuncs("mxj"))
 	})
+
+	register("IOt", "temporary", nil, func(p *Prog, r *Report) {
+		fns := append(p.PkgFuncs("mxj"), p.PkgFuncs("x2jw")...)
+		ruleIORead(p, r, fns)
+		ruleIOByteReader(p, r, fns)
+		ruleIOTee(p, r)
+		ruleLoopHandler(p, r, []string{"mxj.HandleXmlReader", "mxj.HandleXmlReaderRaw", "mxj.HandleJsonReader", "mxj.HandleJsonReaderRaw",
+			"x2jw.XmlMsgsFromReader", "x2jw.XmlMsgsFromReaderAsJson", "x2jw.XmlMsgsFromFile", "x2jw.XmlMsgsFromFileAsJson"})
+	})
+
+	register("TABt", "temporary", nil, ruleTableEscape, ruleTableNanInf, ruleTableKeys, ruleTableNoRewrite, ruleTableGob, ruleTablePartition)
 }
